@@ -51,7 +51,7 @@ LEVEL_NOTE = ('Trusted: NumPy, Hypothesis, evaluation of the operators '
               "C09's; NumericalDerivative / NumericalGradient.derivative are "
               'numerical estimates by design and not asserted.')
 DESIGN_REF = 'DESIGN.md section 5, C06'
-BUDGET = {'quick': 3000, 'thorough': 40000}
+BUDGET = {'quick': 8000, 'thorough': 60000}
 TOLERANCES = {
     'fd': 'min_k |q(h_k) - D(d)|_max <= 256*eps^(2/3)*S, S = max(|D(d)|, '
           '|q|, |op(x)|)_max; h_k = h0*r^-k, k = 0..5 (float64: h0=2^-3, '
